@@ -50,3 +50,30 @@ Definition lone_zero (l : list mvn_elem) : bool :=
 Definition c02_wide_b (l : list mvn_elem) : bool :=
   d_mvn_wide l && forallb num_ok l && negb (lone_zero l)
   && last_val_nz (fst (split_prefix (tl l))) && forallb tail_nonnull (mvn_tail l).
+
+(* ---------- qualifier attached by '.' (domain of C02_maven_dotted_partial) ---------- *)
+Definition dash1 (e : mvn_elem) : mvn_elem := {| me_sep := 45; me_str := me_str e; me_int := me_int e |}.
+Definition dash_tail (t : list mvn_elem) : list mvn_elem :=
+  match t with [] => [] | q :: t' => dash1 q :: t' end.
+
+(* a qualifier attached by '.', not release-equivalent *)
+Definition dotq_b (q : mvn_elem) : bool :=
+  N.eqb (me_sep q) 46 && is_qual_elem q && (me_int q =? 0) && negb (qualifier_order (me_str q) =? maven_empty_qualifier).
+Definition dtail_b (t : list mvn_elem) : bool :=
+  match t with [] => true | q :: t' => dotq_b q && forallb tail_elem_ok t' end.
+
+(* numbers only, or the qualifier after a '.', and no zero-spelled component right before it *)
+Definition d_dot_b (l : list mvn_elem) : bool :=
+  match l with
+  | [] => false
+  | e0 :: r =>
+      N.eqb (me_sep e0) 0 && is_num_elem e0
+      && last_not_zero (fst (split_prefix r)) && dtail_b (snd (split_prefix r))
+  end.
+
+(* the same version with the qualifier attached by '-' *)
+Definition dashify (l : list mvn_elem) : list mvn_elem :=
+  match l with
+  | [] => []
+  | e0 :: r => e0 :: fst (split_prefix r) ++ dash_tail (snd (split_prefix r))
+  end.
